@@ -12,8 +12,10 @@ LEAN_TARGETS = ['NdnProofs.Props.C02', 'NdnGen.C01']
 THEOREMS = [
     'Ndn.C02.sign_input_is_signed_portion_data', 'Ndn.C02.sign_input_is_signed_portion_interest',
     'Ndn.C02.digest_covers_params_to_end', 'Ndn.C02.covered_end_is_sigvalue_offset',
-    'Ndn.C02.parsed_cover_is_signed_portion_data', 'Ndn.C02.tamper_rejected', 'Ndn.C02.verify_own',
-    'Ndn.C02.params_digest_iff', 'Ndn.Gen.C01.schemas_match',
+    'Ndn.C02.parsed_cover_is_signed_portion_data', 'Ndn.C02.parsed_cover_is_signed_portion_interest',
+    'Ndn.C02.own_interest_passes_digest_check', 'Ndn.C02.own_interest_verifies',
+    'Ndn.C02.parsed_digest_cover_params_interest', 'Ndn.C02.tamper_rejected', 'Ndn.C02.verify_own',
+    'Ndn.C02.params_digest_iff', 'Ndn.Packet.interest_items', 'Ndn.Gen.C01.schemas_match',
 ]
 PARTIAL = {}
 TRUSTED = [
@@ -30,13 +32,17 @@ RULE = ('signed Data / Interest packets as in C01 with every shipped signer and 
 LEVEL_TEXT = ('Lean 4 theorems about the packet model: the bytes handed to the signer are exactly the specified signed portion of '
               'the FINAL wire (Data: Name..SignatureInfo; Interest: name components except the digest, then ApplicationParameters '
               'up to the signature value), also after the reserved signature space was shrunk; the digest covers '
-              'ApplicationParameters to the end of the shrunk value; the range parse_data reports for a made Data is that portion; '
+              'ApplicationParameters to the end of the shrunk value; the ranges parse_data / parse_interest report for a made '
+              'packet are exactly those portions (Interest: sig-covered parts concatenate to the signer input, signature value = '
+              'what the signer wrote, digest-covered range = ApplicationParameters..end, digest value = H of it, so '
+              'params_sha256_checker accepts; also for unsigned Interests with ApplicationParameters); '
               'under the ideal-signature hypotheses the matching verifier accepts the packet and rejects every parsed packet '
               'whose portion or signature value differs; the digest check holds iff component = H(portion). Real signers and '
               'verifiers are exercised by the correspondence: recorded signer input = parser ranges = independent strict reading, '
               'and tampered copies are rejected.')
-LEVEL_NOTE = ('Cryptography is an ideal-scheme hypothesis. The parser-range theorem is proved for Data; for Interests the reported '
-              'ranges are compared on every generated packet (model, code and strict reader).')
+LEVEL_NOTE = ('Cryptography is an ideal-scheme hypothesis. The parser-range theorems are proved for signed Data and for Interests '
+              'to which make_interest appends the digest component; for Interests whose name already carries a caller-supplied '
+              'digest component the reported ranges are compared on every generated packet (model, code and strict reader).')
 TECHNIQUE = 'Lean 4 proof (byte-range algebra over the shrink theorem; ideal-signature hypotheses) + differential and tamper testing'
 DESIGN_REF = 'DESIGN.md section 7, C02'
 
